@@ -1686,7 +1686,7 @@ type rinfo = { ri_at : nat; ri_time : n; ri_key : key option;
                ri_proto : proto; ri_stat : rstat; ri_pend : bool;
                ri_lastpend : nat; ri_dial : dstat; ri_resolved : bool option;
                ri_popc : nat option; ri_d6 : bool; ri_avail : bool;
-               ri_aband : bool }
+               ri_aband : bool; ri_poph : nat option; ri_popx : nat option }
 
 (** val set_ri_stat : rstat -> rinfo -> rinfo **)
 
@@ -1695,7 +1695,7 @@ let set_ri_stat v x =
     x.ri_proto; ri_stat = v; ri_pend = x.ri_pend; ri_lastpend =
     x.ri_lastpend; ri_dial = x.ri_dial; ri_resolved = x.ri_resolved;
     ri_popc = x.ri_popc; ri_d6 = x.ri_d6; ri_avail = x.ri_avail; ri_aband =
-    x.ri_aband }
+    x.ri_aband; ri_poph = x.ri_poph; ri_popx = x.ri_popx }
 
 (** val set_ri_pend : bool -> rinfo -> rinfo **)
 
@@ -1704,7 +1704,7 @@ let set_ri_pend v x =
     x.ri_proto; ri_stat = x.ri_stat; ri_pend = v; ri_lastpend =
     x.ri_lastpend; ri_dial = x.ri_dial; ri_resolved = x.ri_resolved;
     ri_popc = x.ri_popc; ri_d6 = x.ri_d6; ri_avail = x.ri_avail; ri_aband =
-    x.ri_aband }
+    x.ri_aband; ri_poph = x.ri_poph; ri_popx = x.ri_popx }
 
 (** val set_ri_lastpend : nat -> rinfo -> rinfo **)
 
@@ -1712,7 +1712,8 @@ let set_ri_lastpend v x =
   { ri_at = x.ri_at; ri_time = x.ri_time; ri_key = x.ri_key; ri_proto =
     x.ri_proto; ri_stat = x.ri_stat; ri_pend = x.ri_pend; ri_lastpend = v;
     ri_dial = x.ri_dial; ri_resolved = x.ri_resolved; ri_popc = x.ri_popc;
-    ri_d6 = x.ri_d6; ri_avail = x.ri_avail; ri_aband = x.ri_aband }
+    ri_d6 = x.ri_d6; ri_avail = x.ri_avail; ri_aband = x.ri_aband; ri_poph =
+    x.ri_poph; ri_popx = x.ri_popx }
 
 (** val set_ri_dial : dstat -> rinfo -> rinfo **)
 
@@ -1720,7 +1721,8 @@ let set_ri_dial v x =
   { ri_at = x.ri_at; ri_time = x.ri_time; ri_key = x.ri_key; ri_proto =
     x.ri_proto; ri_stat = x.ri_stat; ri_pend = x.ri_pend; ri_lastpend =
     x.ri_lastpend; ri_dial = v; ri_resolved = x.ri_resolved; ri_popc =
-    x.ri_popc; ri_d6 = x.ri_d6; ri_avail = x.ri_avail; ri_aband = x.ri_aband }
+    x.ri_popc; ri_d6 = x.ri_d6; ri_avail = x.ri_avail; ri_aband = x.ri_aband;
+    ri_poph = x.ri_poph; ri_popx = x.ri_popx }
 
 (** val set_ri_resolved : bool option -> rinfo -> rinfo **)
 
@@ -1728,7 +1730,8 @@ let set_ri_resolved v x =
   { ri_at = x.ri_at; ri_time = x.ri_time; ri_key = x.ri_key; ri_proto =
     x.ri_proto; ri_stat = x.ri_stat; ri_pend = x.ri_pend; ri_lastpend =
     x.ri_lastpend; ri_dial = x.ri_dial; ri_resolved = v; ri_popc = x.ri_popc;
-    ri_d6 = x.ri_d6; ri_avail = x.ri_avail; ri_aband = x.ri_aband }
+    ri_d6 = x.ri_d6; ri_avail = x.ri_avail; ri_aband = x.ri_aband; ri_poph =
+    x.ri_poph; ri_popx = x.ri_popx }
 
 (** val set_ri_aband : bool -> rinfo -> rinfo **)
 
@@ -1737,12 +1740,13 @@ let set_ri_aband v x =
     x.ri_proto; ri_stat = x.ri_stat; ri_pend = x.ri_pend; ri_lastpend =
     x.ri_lastpend; ri_dial = x.ri_dial; ri_resolved = x.ri_resolved;
     ri_popc = x.ri_popc; ri_d6 = x.ri_d6; ri_avail = x.ri_avail; ri_aband =
-    v }
+    v; ri_poph = x.ri_poph; ri_popx = x.ri_popx }
 
 type cinfo = { ci_origin : nat; ci_share : bool; ci_new_at : nat;
                ci_closed : nat option; ci_back : nat; ci_back_time : 
                n; ci_holder : nat option; ci_rel_ready : bool;
-               ci_upgraded : bool; ci_dropped : bool; ci_offer : nat option }
+               ci_upgraded : bool; ci_dropped : bool; ci_offer : nat option;
+               ci_idle_time : n }
 
 (** val set_ci_closed : nat option -> cinfo -> cinfo **)
 
@@ -1750,7 +1754,8 @@ let set_ci_closed v x =
   { ci_origin = x.ci_origin; ci_share = x.ci_share; ci_new_at = x.ci_new_at;
     ci_closed = v; ci_back = x.ci_back; ci_back_time = x.ci_back_time;
     ci_holder = x.ci_holder; ci_rel_ready = x.ci_rel_ready; ci_upgraded =
-    x.ci_upgraded; ci_dropped = x.ci_dropped; ci_offer = x.ci_offer }
+    x.ci_upgraded; ci_dropped = x.ci_dropped; ci_offer = x.ci_offer;
+    ci_idle_time = x.ci_idle_time }
 
 (** val set_ci_back : nat -> cinfo -> cinfo **)
 
@@ -1758,7 +1763,8 @@ let set_ci_back v x =
   { ci_origin = x.ci_origin; ci_share = x.ci_share; ci_new_at = x.ci_new_at;
     ci_closed = x.ci_closed; ci_back = v; ci_back_time = x.ci_back_time;
     ci_holder = x.ci_holder; ci_rel_ready = x.ci_rel_ready; ci_upgraded =
-    x.ci_upgraded; ci_dropped = x.ci_dropped; ci_offer = x.ci_offer }
+    x.ci_upgraded; ci_dropped = x.ci_dropped; ci_offer = x.ci_offer;
+    ci_idle_time = x.ci_idle_time }
 
 (** val set_ci_back_time : n -> cinfo -> cinfo **)
 
@@ -1766,7 +1772,8 @@ let set_ci_back_time v x =
   { ci_origin = x.ci_origin; ci_share = x.ci_share; ci_new_at = x.ci_new_at;
     ci_closed = x.ci_closed; ci_back = x.ci_back; ci_back_time = v;
     ci_holder = x.ci_holder; ci_rel_ready = x.ci_rel_ready; ci_upgraded =
-    x.ci_upgraded; ci_dropped = x.ci_dropped; ci_offer = x.ci_offer }
+    x.ci_upgraded; ci_dropped = x.ci_dropped; ci_offer = x.ci_offer;
+    ci_idle_time = x.ci_idle_time }
 
 (** val set_ci_holder : nat option -> cinfo -> cinfo **)
 
@@ -1775,7 +1782,7 @@ let set_ci_holder v x =
     ci_closed = x.ci_closed; ci_back = x.ci_back; ci_back_time =
     x.ci_back_time; ci_holder = v; ci_rel_ready = x.ci_rel_ready;
     ci_upgraded = x.ci_upgraded; ci_dropped = x.ci_dropped; ci_offer =
-    x.ci_offer }
+    x.ci_offer; ci_idle_time = x.ci_idle_time }
 
 (** val set_ci_rel_ready : bool -> cinfo -> cinfo **)
 
@@ -1783,7 +1790,8 @@ let set_ci_rel_ready v x =
   { ci_origin = x.ci_origin; ci_share = x.ci_share; ci_new_at = x.ci_new_at;
     ci_closed = x.ci_closed; ci_back = x.ci_back; ci_back_time =
     x.ci_back_time; ci_holder = x.ci_holder; ci_rel_ready = v; ci_upgraded =
-    x.ci_upgraded; ci_dropped = x.ci_dropped; ci_offer = x.ci_offer }
+    x.ci_upgraded; ci_dropped = x.ci_dropped; ci_offer = x.ci_offer;
+    ci_idle_time = x.ci_idle_time }
 
 (** val set_ci_upgraded : bool -> cinfo -> cinfo **)
 
@@ -1791,7 +1799,8 @@ let set_ci_upgraded v x =
   { ci_origin = x.ci_origin; ci_share = x.ci_share; ci_new_at = x.ci_new_at;
     ci_closed = x.ci_closed; ci_back = x.ci_back; ci_back_time =
     x.ci_back_time; ci_holder = x.ci_holder; ci_rel_ready = x.ci_rel_ready;
-    ci_upgraded = v; ci_dropped = x.ci_dropped; ci_offer = x.ci_offer }
+    ci_upgraded = v; ci_dropped = x.ci_dropped; ci_offer = x.ci_offer;
+    ci_idle_time = x.ci_idle_time }
 
 (** val set_ci_dropped : bool -> cinfo -> cinfo **)
 
@@ -1799,7 +1808,8 @@ let set_ci_dropped v x =
   { ci_origin = x.ci_origin; ci_share = x.ci_share; ci_new_at = x.ci_new_at;
     ci_closed = x.ci_closed; ci_back = x.ci_back; ci_back_time =
     x.ci_back_time; ci_holder = x.ci_holder; ci_rel_ready = x.ci_rel_ready;
-    ci_upgraded = x.ci_upgraded; ci_dropped = v; ci_offer = x.ci_offer }
+    ci_upgraded = x.ci_upgraded; ci_dropped = v; ci_offer = x.ci_offer;
+    ci_idle_time = x.ci_idle_time }
 
 (** val set_ci_offer : nat option -> cinfo -> cinfo **)
 
@@ -1807,7 +1817,17 @@ let set_ci_offer v x =
   { ci_origin = x.ci_origin; ci_share = x.ci_share; ci_new_at = x.ci_new_at;
     ci_closed = x.ci_closed; ci_back = x.ci_back; ci_back_time =
     x.ci_back_time; ci_holder = x.ci_holder; ci_rel_ready = x.ci_rel_ready;
-    ci_upgraded = x.ci_upgraded; ci_dropped = x.ci_dropped; ci_offer = v }
+    ci_upgraded = x.ci_upgraded; ci_dropped = x.ci_dropped; ci_offer = v;
+    ci_idle_time = x.ci_idle_time }
+
+(** val set_ci_idle_time : n -> cinfo -> cinfo **)
+
+let set_ci_idle_time v x =
+  { ci_origin = x.ci_origin; ci_share = x.ci_share; ci_new_at = x.ci_new_at;
+    ci_closed = x.ci_closed; ci_back = x.ci_back; ci_back_time =
+    x.ci_back_time; ci_holder = x.ci_holder; ci_rel_ready = x.ci_rel_ready;
+    ci_upgraded = x.ci_upgraded; ci_dropped = x.ci_dropped; ci_offer =
+    x.ci_offer; ci_idle_time = v }
 
 type mst = { m_i : nat; m_time : n; m_keys : key list; m_reqs : rinfo list;
              m_conns : cinfo list; m_prev : opobs }
@@ -1949,6 +1969,15 @@ let usable cfg m c =
      | None -> unexpired cfg m x)
   | None -> false
 
+(** val open_conn : mst -> nat -> bool **)
+
+let open_conn m c =
+  match nth_error m.m_conns c with
+  | Some x -> (match x.ci_closed with
+               | Some _ -> false
+               | None -> true)
+  | None -> true
+
 (** val track_ev : mst -> ev -> mst **)
 
 let track_ev m = function
@@ -1959,7 +1988,8 @@ let track_ev m = function
     (app m1.m_conns ({ ci_origin = r; ci_share = sh; ci_new_at = m1.m_i;
       ci_closed = None; ci_back = m1.m_i; ci_back_time = m1.m_time;
       ci_holder = None; ci_rel_ready = true; ci_upgraded = false;
-      ci_dropped = false; ci_offer = None } :: [])) m1
+      ci_dropped = false; ci_offer = None; ci_idle_time = m1.m_time } :: []))
+    m1
 | EHand (r, c, _, _, _, _) ->
   let own =
     match nth_error m.m_conns c with
@@ -2028,15 +2058,8 @@ let h2_handle_out m r k =
   existsb (fun ix ->
     let (i, x) = ix in
     (&&) ((&&) ((&&) (negb (Nat.eqb i r)) (same_key x.ri_key k)) (is_live x))
-      (match x.ri_popc with
-       | Some c ->
-         (match nth_error m.m_conns c with
-          | Some y ->
-            (&&) y.ci_share
-              (match y.ci_closed with
-               | Some _ -> false
-               | None -> true)
-          | None -> false)
+      (match x.ri_poph with
+       | Some _ -> true
        | None -> false)) (combine (seq O (length m.m_reqs)) m.m_reqs)
 
 (** val track_op : config -> mst -> op -> opobs -> mst **)
@@ -2063,13 +2086,32 @@ let track_op cfg m o ob =
     let before = idle_of m.m_prev.o_snap t in
     let popc = popped_conn cfg m before (idle_of ob.o_snap t) in
     let avail = existsb (usable cfg m) before in
+    let popx =
+      match skipn (length (idle_of ob.o_snap t)) before with
+      | [] -> None
+      | c :: _ -> Some c
+    in
+    let poph =
+      match skipn (length (idle_of ob.o_snap t)) before with
+      | [] -> None
+      | c :: _ ->
+        (match nth_error m.m_conns c with
+         | Some y ->
+           if (&&) y.ci_share
+                (match y.ci_closed with
+                 | Some _ -> false
+                 | None -> true)
+           then Some c
+           else None
+         | None -> None)
+    in
     set_m_keys ks
       (set_m_reqs
         (app m.m_reqs ({ ri_at = m.m_i; ri_time = m.m_time; ri_key = k;
           ri_proto = p; ri_stat = SLive; ri_pend = false; ri_lastpend = O;
           ri_dial = DsNone; ri_resolved = None; ri_popc = popc; ri_d6 =
           (h2_handle_out m (length m.m_reqs) k); ri_avail = avail; ri_aband =
-          false } :: [])) m)
+          false; ri_poph = poph; ri_popx = popx } :: [])) m)
   | Cancel r ->
     (match nth_error m.m_reqs r with
      | Some x ->
@@ -2136,12 +2178,22 @@ let track_offer ob m = function
   else m
 | _ -> m
 
+(** val track_idle_stamp : snap list -> mst -> snap -> mst **)
+
+let track_idle_stamp prev m sn =
+  fold_left (fun m1 c ->
+    if mem c (idle_of prev sn.sn_token)
+    then m1
+    else ci_upd (set_ci_idle_time m1.m_time) c m1) sn.sn_idle m
+
 (** val track : config -> mst -> op -> opobs -> mst **)
 
 let track cfg m o ob =
+  let prev = m.m_prev.o_snap in
   let m1 = fold_left track_ev ob.o_events (track_op cfg m o ob) in
   let m2 = fold_left (track_offer ob) ob.o_events m1 in
-  set_m_prev ob (set_m_i (S m2.m_i) m2)
+  let m3 = fold_left (track_idle_stamp prev) ob.o_snap m2 in
+  set_m_prev ob (set_m_i (S m3.m_i) m3)
 
 (** val mon_steps :
     (config -> mst -> op -> opobs -> bool) -> config -> mst -> op list ->
@@ -2253,11 +2305,10 @@ let chk_ev_C05 cfg m = function
            | None -> true)
           (match cfg.g_timeout with
            | Some d ->
-             (match y.ri_popc with
+             (match y.ri_popx with
               | Some c' ->
-                if (&&) ((&&) (N.ltb N0 d) (Nat.eqb c c'))
-                     (Nat.ltb x.ci_back y.ri_at)
-                then N.leb (N.sub y.ri_time x.ci_back_time) d
+                if (&&) (N.ltb N0 d) (Nat.eqb c c')
+                then N.leb (N.sub y.ri_time x.ci_idle_time) d
                 else true
               | None -> true)
            | None -> true)
@@ -2403,10 +2454,20 @@ let chk_ev_C04 d6 cfg ob m = function
    | None -> false)
 | _ -> true
 
+(** val no_parked_while_waiting : config -> mst -> opobs -> bool **)
+
+let no_parked_while_waiting cfg m ob =
+  forallb (fun sn ->
+    (||) (Nat.eqb sn.sn_live O)
+      (forallb (fun c -> negb ((&&) (open_conn m c) (usable cfg m c)))
+        sn.sn_idle)) ob.o_snap
+
 (** val chk_C04 : bool -> config -> mst -> op -> opobs -> bool **)
 
 let chk_C04 d6 cfg m o ob =
-  evs_ok (chk_ev_C04 d6 cfg ob) (track_op cfg m o ob) ob.o_events
+  (&&) (evs_ok (chk_ev_C04 d6 cfg ob) (track_op cfg m o ob) ob.o_events)
+    (no_parked_while_waiting cfg
+      (fold_left track_ev ob.o_events (track_op cfg m o ob)) ob)
 
 (** val mon_C04 : config -> op list -> opobs list -> bool **)
 
@@ -2442,6 +2503,20 @@ let chk_ev_C14 cfg _ ob m = function
          | Some i0 -> Nat.leb y.ri_lastpend (S i0)
          | None -> true)
       | None -> false)
+   | None -> false)
+| EPend r ->
+  (match nth_error m.m_reqs r with
+   | Some y ->
+     if (&&) ((&&) cfg.g_pool (is_live y))
+          (match y.ri_dial with
+           | DsFlying -> true
+           | _ -> false)
+     then forallb (fun c ->
+            match nth_error m.m_conns c with
+            | Some x ->
+              (||) x.ci_share (negb ((&&) (open_conn m c) (usable cfg m c)))
+            | None -> true) (idle_of ob.o_snap (key_tok m y.ri_key))
+     else true
    | None -> false)
 | ERdy (c, ok) ->
   if ok
